@@ -20,10 +20,14 @@ CONSTANTS
   ReadNotCounted = FALSE
   SqueezedFits = TRUE
   ReopenClampsMap = FALSE
+  LiveSized = FALSE
+  Page = 1
+  PageBySkipCur = FALSE
+  PageFreshSnap = FALSE
   BatchMax = 1
   MaxOps = 14
   WithReads = FALSE
   Stride = 1
   Offset = 0
 VIEW View
-INVARIANTS TypeOK NoHolderParked GateLive
+INVARIANTS TypeOK NoHolderParked GateLive PageWalk
